@@ -344,3 +344,124 @@ def retry_when_nonempty(chk, P, key):
             raise mir.AnchorMissing("the emptiness test of the retry decision")
         return True, "", [b.span]
     chk.ob(key, "a remainder is re-submitted exactly when it is non-empty (and the budget allows)", f)
+
+
+# ---- C13: the running sum of a count / sum metric adds each sample ---------------------------------------------------------------------------
+
+def sum_points_add(chk, P, key):
+    def f():
+        ev, n = [], 0
+        for k, b in sorted(P.bodies.items()):
+            if b.crate != "emit_otlp" or b.is_closure or "SumPoints<" not in (b.self_ty or "") or b.method not in ("push_point_i64", "push_point_f64"):
+                continue
+            bodies = [b] + P.closures_of(b)
+            n += 1
+            ops = []
+            for x in bodies:
+                for bb, j, st in x.statements(normal_only=True):
+                    rv = st.get("rv") if st["k"] == "assign" else None
+                    if rv and rv["k"] == "binop" and rv["op"].replace("WithOverflow", "") in ("Add", "Sub", "Mul", "Div", "Rem", "BitOr", "BitAnd", "BitXor"):
+                        ops.append((x, rv, st))
+                for c in x.calls(normal_only=True):
+                    if re.match(r"(checked|saturating|wrapping|overflowing)_(add|sub|mul|div)$", c.callee.get("name") or ""):
+                        ops.append((x, {"op": c.callee.get("name")}, {"line": c.loc}))
+            if not ops:
+                raise mir.AnchorMissing("the accumulation in %s" % k)
+            for x, rv, st in ops:
+                o = rv["op"].replace("WithOverflow", "")
+                if not (o == "Add" or o.endswith("_add")):
+                    return False, ("%s accumulates a sample with `%s`: the exported sum of a sequence-valued count / sum metric is no longer the sum of its "
+                                   "samples" % (k, o)), [], b.span
+            ev.append(b.span)
+        if n < 2:
+            raise mir.AnchorMissing("SumPoints::push_point_i64 / push_point_f64 (found %d)" % n)
+        return True, "", ev
+    chk.ob(key, "the data point of a count / sum metric accumulates every sample by addition", f)
+
+
+def range_is_end_minus_start(chk, P, key):
+    """In RawPointSet::into_points the span the points are spread over is `time_unix_nano - start_time_unix_nano` (parameters 3 and 2, in that order)."""
+    def f():
+        bs = [b for k, b in P.bodies.items() if "RawPointSet" in k and k.endswith("::into_points")]
+        if not bs:
+            raise mir.AnchorMissing("RawPointSet::into_points")
+        b = bs[0]
+        subs = [c for c in b.calls(normal_only=True) if re.match(r"(checked|saturating|wrapping)_(sub|add)$", c.callee.get("name") or "")]
+        subs = [c for c in subs if any(mir.o_is_param(b.origin(a), idx=2) or mir.o_is_param(b.origin(a), idx=3) for a in c.args)]
+        if len(subs) != 1:
+            raise mir.AnchorMissing("the subtraction of the extent's ends in RawPointSet::into_points (found %d)" % len(subs))
+        c = subs[0]
+        if not c.callee.get("name").endswith("_sub") or not mir.o_is_param(b.origin(c.args[0]), idx=3) or not mir.o_is_param(b.origin(c.args[1]), idx=2):
+            return False, ("the time range the points of a sequence-valued metric are spread over is %s(%s, %s), not end - start: every point but the first "
+                           "gets a time outside the sample's extent" % (c.callee.get("name"), o_str(b.origin(c.args[0])), o_str(b.origin(c.args[1])))), [], c.loc
+        return True, "", [c.loc]
+    chk.ob(key, "a sequence-valued metric's points are spread over end - start of its extent", f)
+
+
+# ---- C11: the real file system lists regular files only --------------------------------------------------------------------------------------
+
+def std_listing_files_only(chk, P, key):
+    def f():
+        bs = [b for k, b in P.bodies.items() if b.crate == "emit_file" and "StdFilesystem" in k and "read_dir_files" in k]
+        clos = [b for b in bs if b.is_closure]
+        if not clos:
+            raise mir.AnchorMissing("the entry filter of StdFilesystem::read_dir_files")
+        ev = []
+        for b in clos:
+            tests = [(bb, t) for bb, t in b.switches() if mir.norm_bool(b.switch_origin(bb))[0][0] == "call"
+                     and mir.norm_bool(b.switch_origin(bb))[0][1].callee.get("name") == "is_file"]
+            if not tests:
+                continue
+            bb, t = tests[0]
+            so, pos = mir.norm_bool(b.switch_origin(bb))
+            for v, n in _edges(t):
+                is_file = ((v != "0") == pos)
+                rs = _returns_from(b, n)
+                some = [r for r in rs if r[0] == "agg" and r[1].get("variant") == "Some"]
+                none = [r for r in rs if r[0] == "agg" and r[1].get("variant") == "None"]
+                if is_file and (not some or none):
+                    return False, ("StdFilesystem::read_dir_files drops a directory entry that is a regular file: the set's own files are never listed, so "
+                                   "nothing is reused and retention never deletes anything"), [], so[1].loc
+                if not is_file and some:
+                    return False, "StdFilesystem::read_dir_files lists an entry that is not a regular file (a directory named like a log file would be opened / deleted)", [], so[1].loc
+                for r in some:
+                    if not any("path" in o_str(x) for x in r[2]):
+                        return False, "the listed item is %s, not the entry's path" % o_str(r)[:80], [], so[1].loc
+            ev.append(so[1].loc)
+        if not ev:
+            raise mir.AnchorMissing("an is_file() test in StdFilesystem::read_dir_files")
+        return True, "", ev
+    chk.ob(key, "the real file system's listing yields exactly the directory entries that are regular files, by path", f)
+
+
+# ---- C12: https endpoints get a TLS handshake, http endpoints do not --------------------------------------------------------------------------
+
+def tls_iff_https(chk, P, key):
+    def f():
+        ev = []
+        n = 0
+        for k, b in sorted(P.bodies.items()):
+            if b.crate != "emit_otlp" or "client::http" not in k:
+                continue
+            tl = [c for c in b.calls(normal_only=True) if c.callee.get("name") == "tls_handshake"]
+            if not tl:
+                continue
+            n += 1
+            for c in tl:
+                ok = False
+                for gbb, vals, tgt in b.guards_of(c.bb):
+                    so, pos = mir.norm_bool(b.switch_origin(gbb))
+                    if so[0] == "call" and so[1].callee.get("name") == "is_https":
+                        taken = ("0" not in [str(v) for v in vals]) == pos
+                        if not taken:
+                            return False, "%s performs the TLS handshake for an endpoint that is *not* https (and talks plain text to https endpoints)" % k, [], c.loc
+                        ok = True
+                if not ok:
+                    return False, "%s performs a TLS handshake that does not depend on the endpoint's scheme" % k, [], c.loc
+                ev.append(c.loc)
+        if n < 1:
+            if getattr(chk, "_overlay", None) or P.config != "K1":
+                return True, "", ["no tls in this build"]
+            raise mir.AnchorMissing("a tls_handshake call in emit_otlp::client::http")
+        return True, "", ev
+    chk.ob(key, "the TLS handshake is performed exactly for https endpoints", f)
